@@ -181,6 +181,7 @@ func init() {
 			func(s *e1.Stats) bool { return len(s.Kinds) >= 5 && len(s.Accepted) >= 1 && distinctReasons(s) >= 3 })
 		reproDeferredCrossing(c, a)
 		partIntegrityStorm(c, a)
+		partStepThrough(c, a, []string{"compadd-vs-compadd"})
 		return a.finish(c)
 	}
 	registry["C05"] = func(c *check.Ctx) int {
@@ -191,6 +192,7 @@ func init() {
 				after := s.Marks["foreign-after-owner-left:entity_del"] + s.Marks["foreign-after-owner-left:pose"] + s.Marks["foreign-after-owner-left:asset_add"]
 				return marks(s, "foreign:entity_del", "foreign:pose", "foreign:asset_add") && after > 0
 			})
+		partIntegrityStorm(c, a)
 		return a.finish(c)
 	}
 	registry["C12"] = func(c *check.Ctx) int {
@@ -202,7 +204,7 @@ func init() {
 					s.Accepted["comp_list"] > 0 && s.Marks["cascade:entity_del"]+s.Marks["cascade:departure"] > 0
 			})
 		partStoreStress(c, a)
-		partStepThrough(c, a, []string{"compadd-vs-delete", "compadd-vs-leave", "delete", "leave"})
+		partStepThrough(c, a, []string{"compadd-vs-compadd", "compadd-vs-delete", "compadd-vs-leave", "delete", "leave"})
 		return a.finish(c)
 	}
 	registry["C13"] = func(c *check.Ctx) int {
